@@ -92,7 +92,7 @@ C07_CLASSES = r'^(resume-|until-)'
 C01_CLASSES = r'^(rule-|functional)'
 C03_CLASSES = r'^(history-|fixpoint)'
 C15_CLASSES = r'^enum-'
-C06_CLASSES = r'^grow'
+C06_CLASSES = r'^(grow|diverge)'
 
 
 def gen_native():
